@@ -149,6 +149,10 @@ class Stmts:
                 nv = th.strc(tgt.attr)
                 st.env[key] = VMapB(z3.Store(store.has, nv, True), z3.Store(store.get, nv, self.toVal(val, st)))
                 st.env['$attrsv:' + src] = val        # keep the structured value for later reads of the same path
+                if isinstance(val, VVal) and val.kind is not None:
+                    if not hasattr(self, 'obj_attr_kinds'):
+                        self.obj_attr_kinds = {}
+                    self.obj_attr_kinds[(str(recv.term), tgt.attr)] = val.kind
                 return
             raise OutOfSubset('attribute assignment', node)
         if isinstance(tgt, ast.Subscript):
@@ -279,17 +283,24 @@ class Stmts:
 
     # -- try / except --------------------------------------------------------------------
     def st_Try(self, node, st):
-        if node.finalbody:
-            raise OutOfSubset('try/finally', node)
         outs = []
         for kind, v, s in self.exec_block(node.body, st):
             if kind == 'fall' and node.orelse:
                 outs.extend(self.exec_block(node.orelse, s))
             elif kind != 'raise':
                 outs.append((kind, v, s))
-            else:
+            elif node.handlers:
                 outs.extend(self.dispatch_handlers(node.handlers, v, s, node))
-        return outs
+            else:
+                outs.append((kind, v, s))
+        if not node.finalbody:
+            return outs
+        # finally: runs on every way out; a way out of the finally block itself (raise / return / break) replaces the pending one
+        final = []
+        for kind, v, s in outs:
+            for k2, v2, s2 in self.exec_block(node.finalbody, s):
+                final.append((kind, v, s2) if k2 == 'fall' else (k2, v2, s2))
+        return final
 
     def handler_names(self, h, st):
         if h.type is None:
@@ -710,7 +721,62 @@ class Stmts:
                 for r, s in self.apply_contract(self.contracts[key], f, obj, args, kwargs, st, node):
                     res.append((r, s) if isinstance(r, Raised) else (obj, s))
                 return res
+        if ci is not None and not self.spec_mode:
+            r_ = self.instantiate_plain_class(ci, args, kwargs, st, node)
+            if r_ is not None:
+                return r_
+            st.add(z3.Bool(f'needs_contract!{ci.module}:{name}'))
         return self.call_value(VVal(th.clsc(name), kind='callable'), args, kwargs, st, node)
+
+    def instantiate_plain_class(self, ci, args, kwargs, st, node):
+        """A small helper class defined in the repository, without a contract: follow its __init__ on a fresh object (attributes it
+        assigns become facts about the object) and, if it defines __call__, give the object the definitional axioms of a closure.
+        Returns None when the class is not that simple (then the caller treats the constructor as an opaque callee needing a contract)."""
+        th = self.th
+        name = ci.name
+        if ci.is_dataclass or self.idx.is_subclass(name, 'Converter') or self.idx.is_subclass(name, 'PaneBase') or name in th.exc:
+            return None
+        init = self.idx.find_method(name, '__init__')
+        if init is None or init.cls != name and init.cls is None:
+            return None
+        if any(isinstance(n, (ast.Yield, ast.YieldFrom, ast.While, ast.With, ast.Try)) for n in ast.walk(init.node)):
+            return None
+        obj = VVal(th.fresh('obj_' + name), fresh=True, kind='rec', cls=name)
+        f = VFunc(init.node, {}, init.module, init.qualname, self_sv=obj, cls=init.cls or name)
+        s0 = st.fork()
+        s0.add(obj.term != th.NoneV, th.isc(name)(obj.term))
+        n_obl = len(self.obligations)
+        try:
+            outs = self.inline_call(f, list(args), dict(kwargs), s0, node, self_sv=obj)
+        except OutOfSubset:
+            del self.obligations[n_obl:]
+            return None
+        res = []
+        for r, s in outs:
+            if isinstance(r, Raised):
+                res.append((r, s))
+                continue
+            facts = []
+            store = s.env.get(f'$attrs:{obj.term}')
+            if isinstance(store, VMapB):
+                g = store.get
+                seen = set()
+                while z3.is_app(g) and g.decl().kind() == z3.Z3_OP_STORE:
+                    k_, v_ = g.arg(1), g.arg(2)
+                    nm = th.str_of_const(k_) if hasattr(th, 'str_of_const') else None
+                    if nm is not None and nm not in seen:
+                        seen.add(nm)
+                        facts.append(th.fld(nm)(obj.term) == v_)
+                        facts.append(th.has_attr(nm)(obj.term))
+                    g = g.arg(0)
+            s.add(*facts)
+            callm = self.idx.find_method(name, '__call__')
+            if callm is not None:
+                cf = VFunc(callm.node, {}, callm.module, callm.qualname, self_sv=obj, cls=callm.cls or name)
+                object.__setattr__(cf, '_prefacts', list(facts))
+                self.summarize_closure(cf, obj.term)
+            res.append((obj, s))
+        return res
 
     def class_attr_call(self, c: VClass, attr, args, kwargs, st, node):
         th = self.th
